@@ -131,7 +131,7 @@ func genC20Event(r *rand.Rand, unixSafe bool) *c20Event {
 }
 
 // literals start with a character that cannot continue a field name
-var c20Literals = []string{" ", " - ", "|", "\"", " [", "] ", "% ", " 100% ", "$ ", "ü ", "\t", ": ", "/", "#", "$$ "}
+var c20Literals = []string{" ", " - ", "|", "\"", " [", "] ", "% ", " 100% ", "$ ", "ü ", "\t", ": ", "/", "#", "$$ ", "$", " $", "=$$", ""} // the last four: a dollar sign right in front of a field, two fields side by side
 
 func c20IsField(tok string) bool {
 	if strings.HasPrefix(tok, "$header.") {
